@@ -86,6 +86,7 @@ Definition repeat_string (s : bytes) (n : binary64) : nres :=
     let c := if f_ltb n (z2f 2147483647) then Btrunc 53 1024 n else 2147483647 in
     if 2147483647 <=? zlen s * c then err ERepeatStringTooLarge
     else if 100000 <? zlen s * c then skip "repeat-large"
+    else if zlen s =? 0 then ok_str []          (* strings.Repeat("", c): no unary count of size c *)
     else ok_str (bytes_repeat (Z.to_nat c) s).
 
 Fixpoint deep_merge (fuel : nat) (l r : list (bytes * jv)) : list (bytes * jv) :=
